@@ -135,6 +135,10 @@ func DataKeyRange() (minKey, maxKey Key) {
 // DataInstanceKeyRange returns the min and max Key across all keys for a data instance.
 func DataInstanceKeyRange(d dvid.InstanceID) (minKey, maxKey Key) {
 	minKey = append([]byte{dataKeyPrefix}, d.Bytes()...)
+	if d == dvid.MaxInstanceID {
+		// d + 1 would wrap to 0 and make the range empty: end at the first key after all data keys.
+		return minKey, []byte{dataKeyPrefix + 1}
+	}
 	maxKey = append([]byte{dataKeyPrefix}, (d + 1).Bytes()...) // still less than first key of next instance
 	return minKey, maxKey
 }
@@ -468,6 +472,10 @@ func (ctx *DataContext) TKeyClassRange(c TKeyClass) (min, max Key) {
 func (ctx *DataContext) KeyRange() (min, max Key) {
 	id := ctx.data.InstanceID()
 	min = append([]byte{dataKeyPrefix}, id.Bytes()...)
+	if id == dvid.MaxInstanceID {
+		// id++ would wrap to 0 and make the range empty: end at the first key after all data keys.
+		return min, []byte{dataKeyPrefix + 1}
+	}
 	id++
 	max = append([]byte{dataKeyPrefix}, id.Bytes()...)
 	return min, max
